@@ -174,6 +174,10 @@ func (b *BlockID) UnmarshalJSON(data []byte) error {
 
 		blockNumber, ok := jsonObject["block_number"]
 		if ok {
+			if string(blockNumber) == "null" {
+				// json.Unmarshal(null, &uint64) is a no-op: it would be served as block 0
+				return errors.New("block_number must not be null")
+			}
 			b.typeID = number
 			return json.Unmarshal(blockNumber, &b.data[0])
 		}
